@@ -39,7 +39,7 @@ namespace OP2Utility
 
 		// Relative paths are relative to resourceRootDir
 		const std::string path = XFile::Append(resourceRootDir, filename);
-		if (XFile::PathExists(path)) {
+		if (XFile::IsFile(path)) {
 			return std::make_unique<Stream::FileReader>(path);
 		}
 
